@@ -188,6 +188,17 @@ def handle : List Sx → Sx
     match parseQ o, rec.toBool? with
     | some q, some r => out (asDiagonal 0 q r)
     | _, _ => err "args"
+  | [.atom "as_class", o, rec, .atom target] =>
+    match parseQ o, rec.toBool? with
+    | some q, some r =>
+      match target with
+      | "Scalar" => out (asScalar q r)
+      | "Vector" => out (asVector q r)
+      | "Vector3" => out (asVector3 q r)
+      | "Pair" => out (asPair q r)
+      | "Matrix" => out (asMatrix q r)
+      | _ => err "target"
+    | _, _ => err "args"
   | _ => err "c15-op"
 
 end Drv.C15
